@@ -74,6 +74,10 @@ fn real_main() -> i32 {
                 return 4;
             }
             let mut ctx = Ctx::new(&id, tier, seed, shard, nshards, &profile, volume, journal);
+            // totality checks also format every error value (Display / Debug); must hold for replays as well
+            if id == "C05" || id == "C06" {
+                fe::format_errors(true);
+            }
             if args[1] == "replay" {
                 let path = arg(&args, "--case-file").expect("--case-file");
                 let text = std::fs::read_to_string(path).expect("cannot read case file");
